@@ -1285,6 +1285,11 @@ func (n *node) handleProposals() (bool, error) {
 	}
 	paused := logDBBusy || n.rateLimited
 	if entries := n.incomingProposals.get(paused); len(entries) > 0 {
+		// a proposal is activity like a ReadIndex or a config change request, it ends
+		// quiesce on this replica. without it a quiesced shard that lost its leader is
+		// never woken up by proposals made on its followers, they are forwarded to the
+		// dead leader and no election ever starts.
+		n.qs.record(pb.Propose)
 		if err := n.p.ProposeEntries(entries); err != nil {
 			return false, err
 		}
